@@ -311,6 +311,36 @@ func (x *Exec) frontBuiltin(env *SpecEnv, st *State, name string, args []TV) (TV
 		if !ok {
 			return TV{}, false
 		}
+		if iv.Dyn == nil && iv.Id.S != "" && !iv.Nil.IsTrue() {
+			// opaque dynamic type of a named interface value: the same symbols a type assertion on it uses
+			switch name {
+			case "isstring":
+				okT := x.sym.Named(iv.Id.S+".as."+typeShort(types.Typ[types.String])+".ok", SBool)
+				st.assume(Implies(iv.Nil, Not(okT)))
+				x.dynExclusive(st, iv.Id.S, typeShort(types.Typ[types.String]))
+				return TV{VScalar{okT}, boolT}, true
+			case "strval":
+				return TV{x.symbolic(st, types.Typ[types.String], iv.Id.S+".as."+typeShort(types.Typ[types.String])), types.Typ[types.String]}, true
+			case "isptrto":
+				want, _ := litArg(1)
+				var found types.Type
+				if env.pkg != nil {
+					pkgs := append([]*types.Package{env.pkg}, env.pkg.Imports()...)
+					for _, p := range pkgs {
+						if tn, ok := p.Scope().Lookup(want).(*types.TypeName); ok {
+							found = types.NewPointer(tn.Type())
+							break
+						}
+					}
+				}
+				if found != nil {
+					okT := x.sym.Named(iv.Id.S+".as."+typeShort(found)+".ok", SBool)
+					st.assume(Implies(iv.Nil, Not(okT)))
+					x.dynExclusive(st, iv.Id.S, typeShort(found))
+					return TV{VScalar{okT}, boolT}, true
+				}
+			}
+		}
 		if iv.Dyn == nil {
 			// unknown dynamic type: nothing is known
 			switch name {
